@@ -63,6 +63,14 @@ reg("C10", "invariants at hooks + shadow model: harness-defined counting callbac
     "there, log_alpha only there and only with autotune. Exploration over sampled configurations and short histories.",
     "Trusts ordered jax.debug.callback at top level of learn/scan body (not under vmap/cond) and array snapshots of the returned states.")
 
+reg("C19", "reference-model monitor (float64 episode/EMA model) over LoggingCallbackStepState.next histories; recording backend observes real learn()/iteration() runs; table interpreter reconstructs the true reward stream; decodable start-state returns for average_reward",
+    "Held on every history/run explored: the step-state statistics follow the float64 EMA-of-episode-sums model on random histories "
+    "(eager/jit/vmap, bursts, alpha 0/1) and are unchanged on non-done steps; records of real learn() runs of all five algorithms arrive once "
+    "per iteration, in order, with step = cumulative environment steps and closed-form statistics on unit-reward chains ending by termination, "
+    "truncation or both; on random MDPs the logged numbers equal the EMA of the interpreter's true episode returns; average_reward equals the "
+    "interpreter's episode return (first terminal/truncated state or cap) and n*mean decodes to n episodes over varying start states.",
+    "Trusts the recording backend (thread-safe list), ordered callbacks lerax itself uses as its output channel, RefMDP interpreter.")
+
 
 def main():
     props = [json.loads(l) for l in (ROOT / "properties.jsonl").read_text().splitlines() if l.strip()]
